@@ -176,7 +176,25 @@ def gc_module_e():
     return sp
 
 
-SCENARIOS = [('dead-nested-blocks', gc_module_e), ('all-kinds', gc_module_a), ('late-table', gc_module_b), ('mixed-declared-extern-data', gc_module_c), ('only-export', gc_module_d)]
+def gc_module_f():
+    """an UNREACHABLE local table with an active segment whose offset is global.get of an imported global mentioned
+    nowhere else: table, segment, the function it lists, that function's type, the global and its import are all garbage;
+    the same shape on an IMPORTED table is a root (control)"""
+    sp = Spec()
+    sp.types = [([], []), (['i64'], ['i64'])]
+    sp.imports = [dict(module=S('e'), name=S('off_dead'), kind='global', **scen.glob('ig_dead', 'i32', mutable=False)),
+                  dict(module=S('e'), name=S('off_live'), kind='global', **scen.glob('ig_live', 'i32', mutable=False)),
+                  dict(module=S('e'), name=S('itab'), kind='table', **scen.table('it', t64=False))]
+    sp.funcs = [dict(type=0, ops=tagged_body('run', 0)), dict(type=1, ops=tagged_body('f_dead', 1, [OP('LocalGet', local_index=u32(0))])), dict(type=0, ops=tagged_body('f_live', 2))]
+    sp.func_tags = ['run', 'f_dead', 'f_live']
+    sp.tables = [scen.table('t_dead', t64=False)]          # table 1 (table 0 is the import)
+    sp.exports = [dict(name=S('run'), kind='Func', index=u32(0))]
+    sp.elements = [dict(mode='active', table=u32(1), offset=OP('GlobalGet', global_index=u32(0)), items=('funcs', [u32(1)])),
+                   dict(mode='active', table=None, offset=OP('GlobalGet', global_index=u32(1)), items=('funcs', [u32(2)]))]
+    return sp
+
+
+SCENARIOS = [('dead-table-global-offset', gc_module_f), ('dead-nested-blocks', gc_module_e), ('all-kinds', gc_module_a), ('late-table', gc_module_b), ('mixed-declared-extern-data', gc_module_c), ('only-export', gc_module_d)]
 
 
 def keep_sets(spec):
